@@ -22,6 +22,7 @@ import (
 	"net/http"
 	"net/url"
 	"path/filepath"
+	"reflect"
 	"strings"
 	"testing"
 	"time"
@@ -54,7 +55,84 @@ func c12Config(c *AppConfigFile, dir string) {
 		{ClientID: c12ClientC, ClientSecret: c12SecretC, AllowedRedirectDomains: []string{"apps.example"}},
 		{ClientID: c12ClientD, ClientSecret: "", AllowedRedirectDomains: []string{"apps.example", "svc.example"}, AllowClientChosenAudiences: true},
 	}
+	// the client-option dimension: per option and value, a client with a secret and a secret-less one carrying it
+	for _, k := range c12ClientKnobs() {
+		for _, secret := range []string{k.secret(), ""} {
+			cc := OpenIDConnectClientConfig{ClientID: k.client(secret != ""), ClientSecret: secret, AllowedRedirectDomains: []string{"apps.example"}}
+			k.set(&cc)
+			c.OpenIDConnectIDP.Client = append(c.OpenIDConnectIDP.Client, cc)
+		}
+	}
 }
+
+// ---------------------------------------------------------------- the client-option dimension
+//
+// "Tokens are released only to a caller that proves to be the client - by the secret, PKCE alone only
+// for secret-less clients" is unconditional in the client's configuration entry.  The options are found
+// by reflection over OpenIDConnectClientConfig of the CURRENT tree: every bool field (set to true) and
+// every string field other than the id and the secret (set to plausible values).  Per option and value
+// two more clients are configured through the YAML surface - one with a secret, one without - and the
+// token-endpoint product is re-run with them as callers.
+
+type c12Knob struct {
+	n     int
+	field string // Go field name (part of the failing input, never of an oracle key)
+	index int
+	kind  string // bool-knob | string-knob
+	value string
+}
+
+func c12ClientKnobs() []c12Knob {
+	var out []c12Knob
+	t := reflect.TypeOf(OpenIDConnectClientConfig{})
+	for i := 0; i < t.NumField(); i++ {
+		f := t.Field(i)
+		if f.PkgPath != "" || f.Name == "ClientID" || f.Name == "ClientSecret" {
+			continue
+		}
+		switch f.Type.Kind() {
+		case reflect.Bool:
+			out = append(out, c12Knob{n: len(out), field: f.Name, index: i, kind: "bool-knob", value: "true"})
+		case reflect.String:
+			for _, v := range []string{"true", "none"} {
+				out = append(out, c12Knob{n: len(out), field: f.Name, index: i, kind: "string-knob", value: v})
+			}
+		}
+	}
+	return out
+}
+
+func (k c12Knob) client(withSecret bool) string {
+	if withSecret {
+		return fmt.Sprintf("option%d-confidential", k.n)
+	}
+	return fmt.Sprintf("option%d-public", k.n)
+}
+
+func (k c12Knob) secret() string { return fmt.Sprintf("secret of option client %d", k.n) }
+
+func (k c12Knob) set(cc *OpenIDConnectClientConfig) {
+	f := reflect.ValueOf(cc).Elem().Field(k.index)
+	if k.kind == "bool-knob" {
+		f.SetBool(true)
+	} else {
+		f.SetString(k.value)
+	}
+}
+
+func (k c12Knob) callers() []c12Caller {
+	return []c12Caller{
+		{k.client(true), k.secret(), "alice", k.client(true), k.client(false)},
+		{k.client(false), "", "bob", k.client(false), k.client(true)},
+		{"clientX", k.secret(), "alice", k.client(true), k.client(false)},
+	}
+}
+
+// quick: every secret, verifier, challenge and location; redirect same/other/absent; code fresh/expired/other client's
+var c12KnobDims = c12Dims{[]int{0, 1}, c12Seq(3), c12Seq(3), c12Seq(5), []int{0, 1, 2}, []int{0, 1, 3}, c12Seq(3)}
+
+// thorough: the full product without the two other-kind artefacts
+var c12KnobDimsThorough = c12Dims{c12Seq(3), c12Seq(3), c12Seq(3), c12Seq(5), c12Seq(8), []int{0, 1, 2, 3}, c12Seq(3)}
 
 func c12S256(v string) string {
 	sum := sha256.Sum256([]byte(v))
@@ -330,6 +408,15 @@ type c12Site struct {
 	sid     int
 	adv     []string // id_token_signing_alg_values_supported
 	sibling *rsa.PrivateKey
+	knob    *c12Knob    // the client option the two callers of this run carry (nil: none)
+	callers []c12Caller // nil: c12Callers
+}
+
+func (s *c12Site) callerList() []c12Caller {
+	if s.callers != nil {
+		return s.callers
+	}
+	return c12Callers
 }
 
 func (s *c12Site) fetchDiscovery(t *testing.T) {
@@ -394,7 +481,9 @@ func (d c12Dims) size() int {
 	return len(d.cl) * len(d.sm) * len(d.vm) * len(d.ck) * len(d.rd) * len(d.cs) * len(d.loc)
 }
 
-var c12Callers = []struct{ id, secret, user, codeClient, otherClient string }{
+type c12Caller struct{ id, secret, user, codeClient, otherClient string }
+
+var c12Callers = []c12Caller{
 	{c04ClientA, c04SecretA, "alice", c04ClientA, c04ClientB},
 	{c04ClientB, "", "bob", c04ClientB, c04ClientA},
 	{"clientX", c04SecretA, "alice", c04ClientA, c04ClientB},
@@ -495,7 +584,7 @@ func (x *c12Run) buildCodes(s *c12Site, d c12Dims, prod *c04Produced) []*c12Code
 		return false
 	}
 	codes := make([]*c12Code, 3*5*6)
-	for cl, c := range c12Callers {
+	for cl, c := range s.callerList() {
 		for ck := 0; ck < 5; ck++ {
 			if !in(d.cl, cl) || !in(d.ck, ck) {
 				continue
@@ -521,7 +610,7 @@ func (x *c12Run) buildCodes(s *c12Site, d c12Dims, prod *c04Produced) []*c12Code
 			if real {
 				var status int
 				fresh, minted, status = env.c12Authorize(t, c.user, c.codeClient, ck)
-				if fresh == nil && (s.spec == nil || chal == "" || canSeal) {
+				if fresh == nil && s.knob == nil && (s.spec == nil || chal == "" || canSeal) {
 					t.Fatalf("%s: authorize refused client=%s ck=%d: %d", s.name, c.codeClient, ck, status)
 				}
 				x.res.bump(fmt.Sprintf("site:%s:authorize-ck%d:%d", s.name, ck, status))
@@ -576,7 +665,7 @@ func (x *c12Run) runProduct(s *c12Site, d c12Dims, codes []*c12Code) (observed [
 	t0 = time.Now().UnixNano()
 	idx := 0
 	for _, cl := range d.cl {
-		c := c12Callers[cl]
+		c := s.callerList()[cl]
 		for _, sm := range d.sm {
 			secret := []string{c.secret, c12WrongSecret, ""}[sm]
 			for _, vm := range d.vm {
@@ -618,6 +707,10 @@ func (x *c12Run) runProduct(s *c12Site, d c12Dims, codes []*c12Code) (observed [
 									combo := map[string]interface{}{"signer": s.name, "caller": c.id, "secret": c12SecretNames[sm], "verifier": c12VerifierNames[vm],
 										"challenge": c12ChalNames[ck], "redirect": c12RedirectNames[rd], "redirect_uri_values": redirects,
 										"code": c12CodeNames[cs], "location": c12LocNames[loc], "index": idx}
+									if s.knob != nil {
+										combo["client_has_secret"] = c.secret != ""
+										combo["client_option"] = map[string]interface{}{"field": s.knob.field, "value": s.knob.value, "kind": s.knob.kind}
+									}
 									observed = append(observed, 1)
 									res.bump("released")
 									// the statement's own predicate
@@ -644,7 +737,15 @@ func (x *c12Run) runProduct(s *c12Site, d c12Dims, codes []*c12Code) (observed [
 										reason = "pkce-not-matched"
 									}
 									if reason != "" {
-										x.hit("C12:released:"+reason, "the token endpoint released tokens to a caller that did not prove to be the client of a fresh code with the bound redirect URI",
+										key := "C12:released:" + reason
+										if s.knob != nil {
+											// the shape: what was not proved, and the kind of client option that was set
+											key += ":" + s.knob.kind
+											if reason == "secret-not-shown" {
+												key = "C12:release:secret-client-without-secret:" + s.knob.kind
+											}
+										}
+										x.hit(key, "the token endpoint released tokens to a caller that did not prove to be the client of a fresh code with the bound redirect URI",
 											fmt.Sprintf("tokens released although %s: %v", reason, combo), combo, map[string]interface{}{"status": rr.Code})
 									}
 									idt := newSymTok(tr.IDToken, s.sid, false, "id")
@@ -745,7 +846,7 @@ func (s *c12Site) coqEnv(codes []*c12Code) string {
 	}
 	sb.WriteString("].\n")
 	var cl []string
-	for _, c := range c12Callers {
+	for _, c := range s.callerList() {
 		cl = append(cl, fmt.Sprintf("(%s, %s)", coqStr(c.id), coqStr(c.secret)))
 	}
 	sb.WriteString(fmt.Sprintf("Definition c12_env%s : c12env :=\n  {| e_callers := [%s]; e_wrong_secret := %s; e_V := %s; e_W := %s; e_HV := %s; e_HW := %s;\n     e_red_same := %s; e_red_diff := %s; e_red_slash := %s; e_red_upper := %s; e_codes := codes%s |}.\n",
@@ -1010,7 +1111,7 @@ func (x *c12Run) runAudienceFlows(s *c12Site, authz *[]c12Authz) []c12Flow {
 				var tr tokenResponse
 				ok := rr.Code == 200 && json.Unmarshal(rr.Body.Bytes(), &tr) == nil && tr.IDToken != ""
 				fl := c12Flow{t0: f0, t1: f1, released: ok, label: fmt.Sprintf("%s credentials=%s\tstatus=%d released=%v", label, loc, rr.Code, ok)}
-				fl.coq = fmt.Sprintf("{| tr_post := true; tr_grant := %s; tr_redirect := %s; tr_code := %s; tr_verifier := %s; tr_vhash := %s; tr_basic := %s; tr_form_client := %s; tr_form_secret := %s |}",
+				fl.coq = fmt.Sprintf("{| tr_conn := conn_none; tr_post := true; tr_grant := %s; tr_redirect := %s; tr_code := %s; tr_verifier := %s; tr_vhash := %s; tr_basic := %s; tr_form_client := %s; tr_form_secret := %s |}",
 					coqStr("authorization_code"), coqStr(c12RedirectSame), env.coqToken(a.tok), coqStr(verifier), coqStr(vh), basicCoq, coqStr(fc), coqStr(fs))
 				x.res.eval("audience-flow|"+cl.id+"|"+av.name+"|"+loc+fmt.Sprint(ok), true)
 				x.res.bump("audience-flow")
@@ -1157,6 +1258,42 @@ func TestVerif_C12(t *testing.T) {
 		}
 		siteRuns = append(siteRuns, sr)
 	}
+	// ---- the client-option dimension: the product re-run with, per option, a client with a secret and a
+	// secret-less client that carry it (same daemon state, same codes table layout)
+	type knobRun struct {
+		site     *c12Site
+		codes    []*c12Code
+		observed []byte
+		rel      []c12Released
+		t0, t1   int64
+	}
+	knobDims := c12KnobDims
+	if verifThorough() {
+		knobDims = c12KnobDimsThorough
+	}
+	knobs := c12ClientKnobs()
+	var knobRuns []*knobRun
+	var knobIndex []string
+	for n := range knobs {
+		k := &knobs[n]
+		ks := *main
+		ks.name, ks.suffix, ks.knob, ks.callers = fmt.Sprintf("client-option-%d(%s)", k.n, k.kind), fmt.Sprintf("_k%d", k.n), k, k.callers()
+		kr := &knobRun{site: &ks}
+		kr.codes = x.buildCodes(&ks, knobDims, nil)
+		var ix []string
+		kr.observed, kr.rel, kr.t0, kr.t1, ix = x.runProduct(&ks, knobDims, kr.codes)
+		for _, l := range ix {
+			knobIndex = append(knobIndex, fmt.Sprintf("client option %s=%s (caller 0 = client with a secret, caller 1 = secret-less client, both carry it) %s", k.field, k.value, l))
+		}
+		if len(kr.rel) == 0 {
+			hit("C12:harness:nothing-released:"+k.kind, "harness", "no combination released tokens to the clients carrying the option "+k.field, nil, nil)
+		}
+		res.Extra["released:"+ks.name] = len(kr.rel)
+		res.bump("client-option:" + k.kind)
+		knobRuns = append(knobRuns, kr)
+	}
+	res.Extra["client_options"] = len(knobs)
+
 	// outside the model: an ECDSA signer on a curve neither x/crypto/ssh nor go-jose supports.  The
 	// daemon starts; whatever it releases must still verify under its JWKS (it releases nothing:
 	// every signing path answers 500).
@@ -1247,7 +1384,7 @@ func TestVerif_C12(t *testing.T) {
 		if verifier != "" {
 			vh = c12S256(verifier)
 		}
-		coq := fmt.Sprintf("{| tr_post := %s; tr_grant := %s; tr_redirect := %s; tr_code := %s; tr_verifier := %s; tr_vhash := %s; tr_basic := %s; tr_form_client := %s; tr_form_secret := %s |}",
+		coq := fmt.Sprintf("{| tr_conn := conn_none; tr_post := %s; tr_grant := %s; tr_redirect := %s; tr_code := %s; tr_verifier := %s; tr_vhash := %s; tr_basic := %s; tr_form_client := %s; tr_form_secret := %s |}",
 			coqBool(method == "POST"), coqStr(grant), coqStr(redirect), env.coqToken(code), coqStr(verifier), coqStr(vh), basicCoq, coqStr(formClient), coqStr(formSecret))
 		tcs = append(tcs, tokCase{coq: coq, t0: s0, t1: s1, released: ok, label: label})
 		res.eval("single|"+label+fmt.Sprint(ok), true)
@@ -1365,6 +1502,15 @@ func TestVerif_C12(t *testing.T) {
 		runAuthz("client="+cl+" method-without-challenge", "GET", with("client_id", cl, "code_challenge_method", "plain"))
 		for _, a := range []string{c12Audience, "https://api.evil.example", "http://api.apps.example", "https://apps.example"} {
 			runAuthz("client="+cl+" audience="+a, "GET", with("client_id", cl, "audience", a))
+		}
+	}
+
+	// the clients of the client-option dimension at the authorization step
+	for _, k := range knobs {
+		for _, withSecret := range []bool{true, false} {
+			cl := k.client(withSecret)
+			runAuthz(fmt.Sprintf("client option %s=%s: client=%s challenge S256", k.field, k.value, cl), "GET", with("client_id", cl, "code_challenge", c12S256(c12V), "code_challenge_method", "S256"))
+			runAuthz(fmt.Sprintf("client option %s=%s: client=%s no challenge", k.field, k.value, cl), "GET", with("client_id", cl))
 		}
 	}
 
@@ -1550,6 +1696,53 @@ func TestVerif_C12(t *testing.T) {
 	sb.WriteString("Definition c12_keys_mismatches := Eval vm_compute in mismatches keys_bad key_cases.\nPrint c12_keys_mismatches.\n")
 	sb.WriteString("Definition idp_cases : list (keyconf * idp * list N) := [\n " + strings.Join(idpCases, ";\n ") + "].\n")
 	sb.WriteString("Definition c12_idp_mismatches := Eval vm_compute in mismatches idp_bad idp_cases.\nPrint c12_idp_mismatches.\n")
+	// the client-option dimension
+	sb.WriteString("Definition option_dims_run : dims := " + knobDims.coq() + ".\nDefinition option_combos_run := Eval vm_compute in combos_of option_dims_run.\n")
+	if !verifThorough() {
+		sb.WriteString("Definition c12_option_dims_ok : option_dims_run = option_dims := eq_refl.\n")
+	}
+	{
+		var kProd, kRel, kViol []string
+		var knobRelIndex []string
+		kRelOff := 0
+		for n, kr := range knobRuns {
+			ks := kr.site
+			sb.WriteString(ks.coqEnv(kr.codes))
+			sb.WriteString("Definition observed" + ks.suffix + " : bs := " + coqPacked(kr.observed) + ".\n")
+			sb.WriteString(fmt.Sprintf("Definition option_mm%s := Eval vm_compute in product_mismatches_on option_combos_run c12_idp c12_env%s (%d)%%Z (%d)%%Z observed%s.\n",
+				ks.suffix, ks.suffix, kr.t0, kr.t1, ks.suffix))
+			kProd = append(kProd, fmt.Sprintf("map (Nat.add %d) option_mm%s", n*knobDims.size(), ks.suffix))
+			kViol = append(kViol, fmt.Sprintf("map (Nat.add %d) (secret_violating_on option_combos_run c12_idp c12_env%s observed%s option_mm%s)", n*knobDims.size(), ks.suffix, ks.suffix, ks.suffix))
+			sb.WriteString(ks.coqReleased("released_cases"+ks.suffix, kr.rel))
+			kRel = append(kRel, fmt.Sprintf("map (Nat.add %d) (mismatches (release_bad_on option_combos_run c12_idp c12_env%s (%d)%%Z (%d)%%Z) released_cases%s)",
+				kRelOff, ks.suffix, kr.t0, kr.t1, ks.suffix))
+			for _, r := range kr.rel {
+				knobRelIndex = append(knobRelIndex, knobIndex[n*knobDims.size()+r.idx])
+			}
+			kRelOff += len(kr.rel)
+		}
+		join := func(l []string) string {
+			if len(l) == 0 {
+				return "(@nil nat)"
+			}
+			return strings.Join(l, "\n  ++ ")
+		}
+		sb.WriteString("Definition c12_option_product_mismatches := Eval vm_compute in " + join(kProd) + ".\nPrint c12_option_product_mismatches.\n")
+		sb.WriteString("Definition c12_option_release_mismatches := Eval vm_compute in " + join(kRel) + ".\nPrint c12_option_release_mismatches.\n")
+		sb.WriteString("Definition c12_option_violating := Eval vm_compute in " + join(kViol) + ".\nPrint c12_option_violating.\n")
+		sb.WriteString("Definition c12_product_secret_violating := Eval vm_compute in secret_violating_on all_combos c12_idp c12_env observed c12_product_mismatches.\nPrint c12_product_secret_violating.\n")
+		func() {
+			var a, b strings.Builder
+			for n, l := range knobIndex {
+				a.WriteString(fmt.Sprintf("%d\t%s\n", n, l))
+			}
+			for n, l := range knobRelIndex {
+				b.WriteString(fmt.Sprintf("%d\t%s\n", n, l))
+			}
+			ioutil.WriteFile(filepath.Join(verifOut(), "CasesC12_options.idx"), []byte(a.String()), 0644)
+			ioutil.WriteFile(filepath.Join(verifOut(), "CasesC12_option_released.idx"), []byte(b.String()), 0644)
+		}()
+	}
 	sb.WriteString("Definition token_cases : list (treq * Z * Z * bool) := [\n")
 	for i, c := range tcs {
 		sep := ";"
